@@ -466,6 +466,23 @@ func (p *proxyConn) writeResponseDeferTrace(res *http.Response, deferTrace bool)
 		}
 	}
 
+	// A body of unknown length must be delimited in a way this client understands:
+	// chunked coding is not known to HTTP/1.0 clients, and a body that the transport
+	// decompressed has lost its Content-Length without gaining any other framing.
+	if res.ContentLength == -1 && !isHeaderOnlySpec(res) && !(req.Method == http.MethodConnect && res.StatusCode/100 == 2) {
+		switch {
+		case !req.ProtoAtLeast(1, 1):
+			res.TransferEncoding = nil
+			res.Close = true
+		case len(res.TransferEncoding) == 0 && !res.Close:
+			if res.ProtoAtLeast(1, 1) {
+				res.TransferEncoding = []string{"chunked"}
+			} else {
+				res.Close = true
+			}
+		}
+	}
+
 	if res.Close {
 		res.Header.Add("Connection", "close")
 	}
